@@ -194,7 +194,7 @@ def gen_config(rng, kitchen_sink=False):
     on = {f: bool(kitchen_sink or rng.random() < 0.5) for f in FLAGS}
     if kitchen_sink:
         on['order2'] = False      # keeps the quick run short
-        on['noise'] = False
+        on['noise'] = True        # noise controls: drawn from the global numpy RNG, identical in every fresh process
         on['cap'] = False         # a binding cap would hide most pairs; the second quick input binds it
         on['mi_ratio'] = False    # the second quick input uses the stratified-sampling flag
     return {'flags': on, 'data_seed': int(rng.integers(0, 2**31)), 'rows': 1200, 'minibatch': 600}
@@ -403,7 +403,7 @@ def run(ctx):
         cfgs = [gen_config(rng, kitchen_sink=True), capped]
         h1, h2, h3 = pick_hash_seeds(rng, 3)
         plans = [[[1, 11, 0], [4, 12, 0], [16, 13, 0], [4, 12, h1], [4, 12, h2]],
-                 [[2, 21, 0], [8, 22, 0], [2, 21, h3], [2, 21, h1]]]
+                 [[3, 21, 0], [8, 22, 0], [3, 21, h3], [3, 21, h1]]]      # the binding budget (7) is a multiple of neither pool size
         parallel = 5
     else:
         cfgs = [gen_config(rng, kitchen_sink=(i == 0)) for i in range(12)]
